@@ -27,7 +27,8 @@ def res_params(ms, slot, i, j):
     lo, hi = ms[a] + ms[b], ms["A"] - ms[OTHER[slot]]
     # nominal masses stay inside the kinematically allowed range: for a nominal mass outside it the
     # reference momenta q0, p0 are imaginary and the statement does not fix a continuation convention
-    m0 = [lo + 0.3 * (hi - lo), lo + 0.7 * (hi - lo), lo + 0.05 * (hi - lo)][i]
+    # i = 3, 4: nominal mass 0.1 MeV / 0.8 MeV above the decay threshold (tiny q0, still inside the range)
+    m0 = [lo + 0.3 * (hi - lo), lo + 0.7 * (hi - lo), lo + 0.05 * (hi - lo), lo + 1e-4, lo + 8e-4][i]
     g0 = [0.05, 0.3][j]
     return m0, g0
 
@@ -85,20 +86,24 @@ def card_work(payload):
         resd = {}
         chains = []
         order = []
-        for slot, J, i, j, ci in chains_spec:
+        names = []
+        for slot, J, i, j, ci, *sfx in chains_spec:
             m0, g0 = res_params(ms, slot, i, j)
-            resd[slot] = [("R_" + slot, J, (-1) ** J, m0, g0)]
-            order.append(slot)
+            name = "R_" + slot + (sfx[0] if sfx else "")  # a suffix declares a further resonance in the same two-body system
+            resd.setdefault(slot, []).append((name, J, (-1) ** J, m0, g0))
+            if slot not in order:
+                order.append(slot)
             r, ph = COUPLINGS[ci]
             chains.append((slot, J, m0, g0, r * np.exp(1j * ph)))
+            names.append(name)
         cfg = zoo.card3(res=resd, chains=tuple(order), masses=ms)
         case = {"part": "card", "spec": spec}
         try:
             c, amp = zoo.load(cfg, point=None)
             # couplings by name; the first chain's magnitude is fixed by the card to 1 -> set everything explicitly
             setp = {}
-            for (slot, J, m0, g0, cc) in chains:
-                name = "A->R_%s.%sR_%s->%s.%s_total_0" % (slot, OTHER[slot], slot, slot[0], slot[1])
+            for (slot, J, m0, g0, cc), rn in zip(chains, names):
+                name = "A->%s.%s%s->%s.%s_total_0" % (rn, OTHER[slot], rn, slot[0], slot[1])
                 setp[name + "r"] = float(abs(cc))
                 setp[name + "i"] = float(np.angle(cc))
             amp.set_params(setp)
@@ -146,6 +151,25 @@ def specs(tier, seed):
         for s1, s2 in itertools.combinations(slots, 2):
             for J1, J2 in itertools.product(Js, Js):
                 out.append({"masses": msn, "chains": [(s1, J1, 1, 0, 0), (s2, J2, 0, 1, (J1 + 2 * J2) % 4 + 1)], "seed": seed, "K": K})
+    # two (three) resonances of different nominal mass in the SAME two-body system, alone and next to the other chains
+    for msn in (["generic", "equal"] if tier == "quick" else list(MASS_SETS)):
+        for slot in slots:
+            for J1, J2 in itertools.product(Js, Js):
+                if tier == "quick" and (J1 + 2 * J2) % 3:
+                    continue
+                out.append({"masses": msn, "chains": [(slot, J1, 0, 0, 0), (slot, J2, 1, 1, (J1 + J2) % 4 + 1, "2")], "seed": seed, "K": K})
+            others = [x for x in slots if x != slot]
+            for J1 in Js:
+                out.append({"masses": msn, "chains": [(others[0], (J1 + 1) % 5, 1, 0, 0), (slot, J1, 0, 0, 2), (slot, (J1 + 2) % 5, 1, 1, 3, "2"), (slot, J1, 2, 0, 4, "3"), (others[1], 1, 0, 1, 1)],
+                            "seed": seed, "K": K})
+    # nominal masses just above the decay threshold of the resonance (tiny q0), every J and slot, alone and interfering
+    for msn in (["generic"] if tier == "quick" else list(MASS_SETS)):
+        for slot in slots:
+            for J in Js:
+                for i in (3, 4):
+                    out.append({"masses": msn, "chains": [(slot, J, i, 0, J % 5)], "seed": seed, "K": K})
+                    other = [x for x in slots if x != slot][J % 2]
+                    out.append({"masses": msn, "chains": [(other, 3, 0, 1, 1), (slot, J, i, 1, 2)], "seed": seed, "K": K})
     # all three chains: all 125 J triples at one mass / coupling point
     for J1, J2, J3 in itertools.product(Js, Js, Js):
         if tier == "quick" and (J1 + 2 * J2 + 3 * J3) % 3:
@@ -157,8 +181,9 @@ def specs(tier, seed):
 def run(tier, seed, only=None):
     rep = Report(
         PID, tier, seed, "exploration",
-        rule="cards: J in 0..4 x 3 slots x (m0 at 30% / 70% / 5% of the allowed range) x Gamma0 x 3 final-mass sets for single chains; all 25 J pairs for "
-             "every pair of slots; J triples for all three chains; each on a Dalitz lattice in 2 orientations. evaluations = events; distinct = card",
+        rule="cards: J in 0..4 x 3 slots x (m0 at 30% / 70% / 5% of the allowed range, threshold + 0.1 / 0.8 MeV) x Gamma0 x 3 final-mass sets for single chains; all 25 J pairs for "
+             "every pair of slots; J triples for all three chains; two / three resonances in the same two-body system; nominal masses 0.1 and 0.8 MeV above threshold; "
+             "each on a Dalitz lattice in 2 orientations. evaluations = events; distinct = card",
         assumptions=["the closed form of the statement with d = 3, running width with L = J, p evaluated with the event's parent mass, index-0 quantities at nominal masses",
                      "lattice events only (plus the analyticity remark of DESIGN section 5); relative tolerance 1e-9"],
     )
